@@ -251,7 +251,7 @@ def spec_domain(tier):
 
 def subprocess_wanted(tier, alg, N):
     if tier != "quick":
-        return True
+        return dim_of(alg) == 4 or N <= 100 or N % 5 == 0
     if alg in ("fulldiv", "zero3D", "zero4D"):
         return True
     return N in QUICK_SUB and not (alg == "cube4D" and N > 41)
@@ -296,7 +296,7 @@ def run(tier, seed):
                  bound="histories/getters: " + "; ".join(
                      f"{a}: N in {_rng_text(Ns)}" for a, Ns in dom.items()) +
                  f"; fresh-interpreter comparison for {nsub} of these specifications"
-                 + (" (N in %s, without cube4D_60, and fulldiv/zero grids)" % _rng_text(QUICK_SUB) if tier == "quick" else " (all)")
+                 + (" (N in %s, without cube4D_60, and fulldiv/zero grids)" % _rng_text(QUICK_SUB) if tier == "quick" else " (all 4-D; 3-D: N <= 100 and multiples of 5)")
                  + "; prefix sets: " + "; ".join(f"{a}: {_rng_text(v)}" for a, v in psets.items())
                  + f"; seed {seed}",
                  oracle="the first fresh object in the task's process (itself compared with a fresh interpreter); "
